@@ -14,6 +14,11 @@ C04 model: views of attribute values and of membership masks.
   the `RoiSubsetStateNd` pixel-space shortcut, `SliceSubsetState.to_mask`, `MaskSubsetState`,
   `ElementSubsetState`, composites), `IndexedData._to_original_view/_translate_cid/get_data/get_mask`
   (`glue/core/data_derived.py`).
+* A second dataset whose pixel ids are `LinkSame`-linked to this one's (`links`, for a fully linked pair the
+  axis order `data.pixel_aligned_data[other]`): `Attr.pixelOf` (the other's pixel id read through the
+  position of its axis in the order — the inverse image), `State.predN` (regions on such ids: general path),
+  `State.sliceOf` (re-ordered slices), `State.maskOf`; `Mutant.roiCross` only for the theorems about an
+  extension of the pixel-space shortcut to such ids.
 * `Spec.*` — what C04 demands: the result for a view is the full-size result indexed by the view.
 
 Core Lean only.  numpy's `broadcast_to` / `unbroadcast` / `broadcast_arrays` are modelled by their
@@ -138,6 +143,37 @@ def View.posStep : View → Bool
   | .basic items => items.all ViewItem.posStep
   | _ => true
 
+/-! ## a second dataset whose pixel axes are linked to this one's (`LinkSame` on pixel ids)
+
+`links[j] = some m` says that pixel axis `j` of *this* dataset (the one being evaluated) is identical
+to pixel axis `m` of the *other* dataset; `none` = axis `j` is not linked.  When every axis is linked
+this is `this.pixel_aligned_data[other]` (`link_manager.equivalent_pixel_cids(other, this)`: "the
+order in which the pixel ids of this dataset are found in the other one"), an axis permutation when
+both datasets have the same number of dimensions. -/
+
+/-- The axis of this dataset that carries pixel axis `k` of the other dataset: the position of `k`
+in the order, i.e. the **inverse** permutation's image (`order.index(k)`).  This is what evaluating
+the other dataset's pixel id on this dataset does: the link manager derives it from the one pixel id
+of this dataset it is identical to. -/
+def axisOf (links : List (Option Nat)) (k : Nat) : Nat := links.idxOf (some k)
+
+/-- The forward image `order[k]` (what a confusion of the two directions computes); it coincides with
+`axisOf` for the identity and for every swap of two axes, not for a cyclic order of three axes. -/
+def axisOfForward (links : List (Option Nat)) (k : Nat) : Nat := ((links.getD k Option.none).getD 0)
+
+/-- Coordinate along axis `k` of the other dataset of the point that has index tuple `idx` in this
+dataset: the association list `other axis links[j] ↦ idx[j]` (what the links *mean*). -/
+def otherCoord (links : List (Option Nat)) (idx : List Nat) (k : Nat) : Nat :=
+  ((links.zip idx).lookup (some k)).getD 0
+
+/-- The index tuple in the other dataset (of `n` axes) of the point `idx` of this dataset. -/
+def otherPoint (links : List (Option Nat)) (n : Nat) (idx : List Nat) : List Nat :=
+  (List.range n).map (otherCoord links idx)
+
+/-- `[self.slices[i] for i in order]` (`SliceSubsetState.to_mask` for a pixel-aligned dataset). -/
+def reorderSlices (order : List Nat) (slices : List ViewItem) : List ViewItem :=
+  order.map fun m => slices.getD m (.slice Option.none Option.none Option.none)
+
 /-! ## attribute kinds (`Data.get_data(cid, view)`) -/
 
 /-- Attribute kinds of a dataset of shape `sh`.  Values are exact rationals. -/
@@ -158,6 +194,10 @@ inductive Attr where
   | linked (a : Attr)
   /-- world coordinate along numpy axis `ax` (`CoordinateComponent(world=True)._calculate`). -/
   | world (c : Coord) (ax : Nat)
+  /-- pixel attribute `k` of **another** dataset whose pixel axes are linked to this one's as `links`
+  (see `axisOf`): an externally derived component, `ComponentLink.compute` (identity) fetches
+  `data[own_pixel_id(axisOf links k), join_component_view(view)]`. -/
+  | pixelOf (links : List (Option Nat)) (k : Nat)
 
 /-- `split_component_view(join_component_view(cid, view))` as repaired (`C04a`): `None` stays `None`,
 a tuple is unpacked and re-packed (a 1-tuple becomes its bare element, which indexes identically), a
@@ -212,6 +252,14 @@ def attr (sh : List Nat) : Attr → View → Except ViewErr (NArr Rat)
   | .zip op a b, v => zipRes op (attr sh a v) (attr sh b v)
   | .linked a, v => attr sh a (joinSplit v)
   | .world c ax, v => world c sh ax v
+  | .pixelOf links k, v =>
+    (tabulate sh fun idx => ((idx.getD (axisOf links k) 0 : Nat) : Rat)).index (joinSplit v)
+
+/-- `[data[att, view] for att in atts]` as one array of tuples (all operands are fetched with the same
+view; an empty attribute list keeps the view's shape). -/
+def attrsN (sh : List Nat) : List Attr → View → Except ViewErr (NArr (List Rat))
+  | [], v => gather sh (fun _ => []) v
+  | a :: as, v => zipRes (· :: ·) (attr sh a v) (attrsN sh as v)
 
 end Impl
 
@@ -228,6 +276,11 @@ inductive State where
   /-- an elementwise test of two attributes (`InequalitySubsetState` between attributes,
   `RoiSubsetState` on non-pixel attributes): `pred(data[a, view], data[b, view])`. -/
   | pred2 (a b : Attr) (p : Rat → Rat → Bool)
+  /-- an elementwise test of any number of attributes: `RoiSubsetStateNd` (1-d, 2-d, 3-d regions, with or
+  without `pretransform`, `Projected3dROI`) on attributes that are **not all pixel ids of this dataset** —
+  in particular pixel / world / derived ids of *another*, pixel-linked dataset (`Attr.pixelOf`) —: the
+  general path `roi.contains(*[data[att, view] for att in atts])`, never the pixel-space shortcut. -/
+  | predN (as : List Attr) (p : List Rat → Bool)
   /-- any other class that evaluates an elementwise function of `data[att, view]` for its attributes;
   `f idx` is that function of the attribute values at `idx` (measured on the implementation). -/
   | table (f : List Nat → Bool)
@@ -250,11 +303,20 @@ inductive State where
   | sliceSt (slices : List ViewItem)
   /-- a `SliceSubsetState` of a dataset that is not pixel-aligned with this one. -/
   | unrelated
+  /-- `SliceSubsetState(other, slices)` (also `PixelSubsetState`) evaluated on a dataset that is
+  pixel-aligned with `other`: `order = data.pixel_aligned_data[other]`, the state's slices are re-ordered
+  (`[slices[i] for i in order]`, axis `j` of this dataset gets the slice of the other's axis `order[j]`)
+  and then treated as the dataset's own. -/
+  | sliceOf (order : List Nat) (slices : List ViewItem)
   /-- `MaskSubsetState(mask, data.pixel_component_ids)`: the same-grid shortcut. -/
   | maskSame (m : List Bool)
   /-- `MaskSubsetState(mask, cids)` where `cids` are this dataset's pixel attributes along `axes` (in
   another order): the general path. -/
   | maskAxes (axes : List Nat) (mshape : List Nat) (m : List Bool)
+  /-- `MaskSubsetState(mask, cids)` where `cids` are the pixel ids along the axes `ks` of **another**
+  dataset, pixel-linked as `links`: the general path, each cid evaluated on this dataset
+  (`Attr.pixelOf`), incl. the `zip(vals, data.shape)` range check. -/
+  | maskOf (links : List (Option Nat)) (ks : List Nat) (mshape : List Nat) (m : List Bool)
   /-- `ElementSubsetState(indices)`. -/
   | element (indices : List Int)
   | and (a b : State)
@@ -435,6 +497,7 @@ def mask (sh : List Nat) : State → View → Except ViewErr (NArr Bool)
   | .base, v => gather sh (fun _ => false) v
   | .pred a p, v => emap (NArr.map p) (attr sh a v)
   | .pred2 a b p, v => zipRes p (attr sh a v) (attr sh b v)
+  | .predN as p, v => emap (NArr.map p) (attrsN sh as v)
   | .table f, v => gather sh f v
   | .roiPix axes roi, v => roiPix sh axes roi v
   | .roiChunked axes roi, v =>
@@ -447,12 +510,17 @@ def mask (sh : List Nat) : State → View → Except ViewErr (NArr Bool)
     gather sh f v
   | .sliceSt sls, v => sliceMask sh sls v
   | .unrelated, v => gather sh (fun _ => false) v
+  | .sliceOf order sls, v => sliceMask sh (reorderSlices order sls) v
   | .maskSame m, v => (NArr.mk sh m).index (noneToSlice v)
   | .maskAxes axes msh m, v =>
     -- `vals = [data[c, view].astype(int) for c in cids]; result = mask[tuple(vals)]` and then
     -- `result &= (v >= 0) & (v < n) for v, n in zip(vals, data.shape)`
     gather sh (fun idx =>
       let vs := axes.map fun ax => idx.getD ax 0
+      (NArr.mk msh m).get vs && (vs.zip sh).all fun p => decide (p.1 < p.2)) (noneToSlice v)
+  | .maskOf links ks msh m, v =>
+    gather sh (fun idx =>
+      let vs := ks.map fun k => idx.getD (axisOf links k) 0
       (NArr.mk msh m).get vs && (vs.zip sh).all fun p => decide (p.1 < p.2)) (noneToSlice v)
   | .element inds, v =>
     if inds.all (inAxis (prod sh)) then
@@ -496,6 +564,35 @@ def mask (sh : List Nat) : State → View → Except ViewErr (NArr Bool)
   | st, v => Impl.mask sh st v
 
 end Pinned
+
+namespace Mutant
+
+/-- The pixel-space shortcut of `RoiSubsetStateNd.to_mask` on a regular sub-grid when the axes that are
+kept whole (`keep`) need not be the axes the attribute values vary along (`axes`); with `keep = axes`
+this is `Impl.roiGrid`. -/
+def roiGridKeep (keep axes : List Nat) (roi : List Nat → Bool) (ks : List (List Nat)) : NArr Bool :=
+  let resShape := ks.map List.length
+  let sub := mapIdxFrom (fun i (k : List Nat) => if keep.contains i then k else k.take 1) 0 ks
+  let subShape := sub.map List.length
+  let small := (allIdx subShape).map fun pos => roi (axes.map fun ax => (coordsAt sub pos).getD ax 0)
+  if subShape != resShape then ⟨resShape, broadcastData small subShape resShape⟩
+  else ⟨resShape, small⟩
+
+/-- `RoiSubsetStateNd.to_mask` with the pixel-space shortcut **extended** to regions whose attributes are
+the pixel ids along `ks` of another dataset, pixel-linked as `links` (not in the tree under test, where
+these take the general path — `State.predN`; used only for the theorems about which axis map such an
+extension must use): the attribute values vary along `axisOf links k`; the shortcut keeps the axes
+`kmap links k` whole. -/
+def roiCross (sh : List Nat) (links : List (Option Nat)) (kmap : List (Option Nat) → Nat → Nat)
+    (ks : List Nat) (roi : List Nat → Bool) (v : View) : Except ViewErr (NArr Bool) :=
+  if isGridView v then
+    match selsOf sh (gridItems v) with
+    | .error e => .error e
+    | .ok sels => .ok (roiGridKeep (ks.map (kmap links)) (ks.map (axisOf links)) roi (sels.map Sel.toList))
+  else
+    gather sh (fun idx => roi ((ks.map (axisOf links)).map fun ax => idx.getD ax 0)) v
+
+end Mutant
 
 /-! ## `IndexedData` -/
 
@@ -610,6 +707,7 @@ def attrAt (sh : List Nat) : Attr → List Nat → Rat
   | .zip op a b, idx => op (attrAt sh a idx) (attrAt sh b idx)
   | .linked a, idx => attrAt sh a idx
   | .world c ax, idx => Coords.Spec.worldAt c ax idx
+  | .pixelOf links k, idx => ((otherCoord links idx k : Nat) : Rat)
 
 /-- Well-formed attribute descriptions: world axes exist and the coordinate object has the dataset's
 dimension. -/
@@ -620,6 +718,7 @@ def attrWf (sh : List Nat) : Attr → Bool
   | .zip _ a b => attrWf sh a && attrWf sh b
   | .linked a => attrWf sh a
   | .world c ax => decide (ax < c.n) && decide (sh.length = c.n)
+  | .pixelOf links k => links.contains (some k)
 
 /-- Coordinate `k` of an axis of length `n` is selected by an entry of a `SliceSubsetState`. -/
 def stateEntryHas (n : Nat) : ViewItem → Nat → Bool
@@ -638,15 +737,21 @@ def holds (sh : List Nat) : State → List Nat → Bool
   | .base, _ => false
   | .pred a p, idx => p (attrAt sh a idx)
   | .pred2 a b p, idx => p (attrAt sh a idx) (attrAt sh b idx)
+  | .predN as p, idx => p (as.map fun a => attrAt sh a idx)
   | .table f, idx => f idx
   | .roiPix axes roi, idx => roi (axes.map fun ax => idx.getD ax 0)
   | .roiChunked axes roi, idx => roi (axes.map fun ax => idx.getD ax 0)
   | .loop1d _ f, idx => f idx
   | .sliceSt sls, idx => sliceHolds sh sls idx
   | .unrelated, _ => false
+  | .sliceOf order sls, idx => sliceHolds sh (reorderSlices order sls) idx
   | .maskSame m, idx => (NArr.mk sh m).get idx
   | .maskAxes axes msh m, idx =>
     let vs := axes.map fun ax => idx.getD ax 0
+    (NArr.mk msh m).get vs && (vs.zip sh).all fun p => decide (p.1 < p.2)
+  | .maskOf links ks msh m, idx =>
+    -- the element of the mask at the matching point of the other dataset (its coordinates along `ks`)
+    let vs := ks.map fun k => otherCoord links idx k
     (NArr.mk msh m).get vs && (vs.zip sh).all fun p => decide (p.1 < p.2)
   | .element inds, idx => inds.any fun i => wrapD (prod sh) i == flat sh idx
   | .and a b, idx => holds sh a idx && holds sh b idx
@@ -663,7 +768,10 @@ def posSliceEntry : ViewItem → Bool
 def stateWf (sh : List Nat) : State → Bool
   | .pred a _ => attrWf sh a
   | .pred2 a b _ => attrWf sh a && attrWf sh b
+  | .predN as _ => as.all (attrWf sh)
   | .sliceSt sls => sls.length == sh.length && sls.all posSliceEntry
+  | .sliceOf order sls => order.length == sh.length && sls.all posSliceEntry
+  | .maskOf links ks _ _ => ks.all (fun k => links.contains (some k)) && !sh.isEmpty
   | .maskSame m => m.length == prod sh && !sh.isEmpty
   | .maskAxes _ _ _ => !sh.isEmpty
   | .element inds => inds.all (inAxis (prod sh))
